@@ -152,14 +152,15 @@ def sweepStep (S T : IntTy) (N D : Nat) (comp : Bool) (a : SweepAcc) (x : Int) :
   let tb : Bool := match t with | .ok b => b | .ub _ => false
   let isub : Bool := match t with | .ok _ => false | .ub _ => true
   let lb : Bool := tb || ob != 0
+  let ev : Bool := truncCheckerEvent S T N D x
   let flags : Nat := ob + (if tb then 2 else 0) + (if lb then 4 else 0)
   let h1 := fnvByte a.h (UInt64.ofNat flags)
   let a1 := { a with n := a.n + 1, novf := a.novf + (if ob = 1 then 1 else 0),
                      ntrunc := a.ntrunc + (if tb then 1 else 0), nlossy := a.nlossy + (if lb then 1 else 0),
                      nub := a.nub + (if isub then 1 else 0),
                      firstub := if isub && a.firstub.isNone then some x else a.firstub,
-                     nevt := a.nevt + (if truncCheckerEvent S T N D x then 1 else 0),
-                     firstevt := if truncCheckerEvent S T N D x && a.firstevt.isNone then some x else a.firstevt }
+                     nevt := a.nevt + (if ev then 1 else 0),
+                     firstevt := if ev && a.firstevt.isNone then some x else a.firstevt }
   if !lb then
     if !comp then { a1 with h := fnvByte h1 0xcc, ncleared := a1.ncleared + 1 } else
     match (coerceII S T N D x).val with
